@@ -136,7 +136,7 @@ func (ex *Exec) step(f *frame, st *State, ins ssa.Instruction) {
 	case *ssa.MapUpdate:
 		m := x.Map.Type().Underlying().(*types.Map)
 		mv := f.val(x.Map)
-		if f.sweepOn() {
+		if f.sweepOn() && ex.mayBeNil(f, x.Map) {
 			ex.oblige(f, st, "nilmap", ex.V.srcText(x.Map, x.Pos()), "", x.Pos(), not(eq(mv, intLit(0))), "assignment to entry in possibly nil map")
 		}
 		ex.lockCheckMap(f, st, x.Map, true, x.Pos())
@@ -212,20 +212,56 @@ func (ex *Exec) step(f *frame, st *State, ins ssa.Instruction) {
 	}
 }
 
-// mayBeNil: pointer values whose nil-ness is worth an obligation (results of calls, loads, lookups, assertions, phis, constants).
+// mayBeNil: nil-ness obligations are generated only for values whose origin makes nil a live possibility:
+// call results, map lookups, comma-ok type assertions, nil constants (and phis / conversions of those).
+// Values loaded from struct fields, globals and parameters are covered by the standing data-structure assumption.
 func (ex *Exec) mayBeNil(f *frame, v ssa.Value) bool {
-	switch x := v.(type) {
-	case *ssa.Parameter, *ssa.FreeVar, *ssa.Alloc, *ssa.FieldAddr, *ssa.IndexAddr, *ssa.Global, *ssa.MakeClosure:
+	return nilOrigin(v, 0)
+}
+
+func nilOrigin(v ssa.Value, depth int) bool {
+	if depth > 6 {
 		return false
+	}
+	switch x := v.(type) {
 	case *ssa.Const:
 		return x.Value == nil
-	case *ssa.UnOp:
-		if x.Op == token.MUL {
-			// loaded pointer: from a local variable holding a parameter-like value is common; be precise via the solver
-			return true
+	case *ssa.Call:
+		if _, isB := x.Call.Value.(*ssa.Builtin); isB {
+			return false
 		}
+		return true
+	case *ssa.Lookup:
+		_, isMap := x.X.Type().Underlying().(*types.Map)
+		return isMap
+	case *ssa.Extract:
+		switch t := x.Tuple.(type) {
+		case *ssa.Call:
+			return true
+		case *ssa.Lookup:
+			return x.Index == 0
+		case *ssa.TypeAssert:
+			return x.Index == 0
+		case *ssa.UnOp:
+			_ = t
+			return false
+		}
+		return false
+	case *ssa.Phi:
+		for _, e := range x.Edges {
+			if e != v && nilOrigin(e, depth+1) {
+				return true
+			}
+		}
+		return false
+	case *ssa.ChangeType:
+		return nilOrigin(x.X, depth+1)
+	case *ssa.ChangeInterface:
+		return nilOrigin(x.X, depth+1)
+	case *ssa.MakeInterface:
+		return false
 	}
-	return true
+	return false
 }
 
 func (ex *Exec) binop(f *frame, st *State, x *ssa.BinOp) Term {
